@@ -25,6 +25,8 @@ func c13GapDevs(toks []Tok, i int, inPrintComma bool) []string {
 		// the canonical text has a newline here (statement separator)
 		// (comments may end in a backslash or hold quotes, slashes and brackets: a comment is over at the line end, nothing in it counts)
 		d := []string{"\n\n", " \n\t", " # c\n", "\r\n", "\n#x\n\n", " # see C:\\logs\\\n", " # \" ' / { ( [ \\n ;\n"}
+		// a long run of line ends (blank lines, a commented-out block) is still one separator
+		d = append(d, strings.Repeat("\n", 40), strings.Repeat(" # off\n", 36))
 		if i == len(toks)-1 {
 			// the end of the text: no newline at all, a comment that runs to the end of the input, trailing blanks
 			d = append(d, "", " # c", " \t\r", "\n\n\n#")
@@ -45,7 +47,7 @@ func c13GapDevs(toks []Tok, i int, inPrintComma bool) []string {
 	d := []string{"  ", "\t", " \r "}
 	newlineOK := prev.S != "print" && prev.S != "return" && !inPrintComma && cur.S != ";"
 	if newlineOK {
-		d = append(d, "\n", " # c\n", "\r\n\t", " # ends in \\\n")
+		d = append(d, "\n", " # c\n", "\r\n\t", " # ends in \\\n", strings.Repeat("\n", 33))
 	}
 	return d
 }
